@@ -20,6 +20,8 @@ FIRST_STATE = {
 
 def check(ctx):
     p = ctx.prog
+    # calls through base-class references reach the derived implementation
+    no_hiding_in_hierarchy(ctx, 'dyn.overrides_are_virtual')
     ctx.assume('textual identity of the re-serialised checkpoint follows from R1-R4 and the lossless '
                'format (C05); the stored result k records the state iteration k sampled with (C19/R1)')
     # ---------------------------------------------------------------- R1 size relation
